@@ -458,14 +458,17 @@ def e_typed(c):
 
 @st.composite
 def s_sync(draw):
-    order = draw(st.sampled_from([7, 9]))
-    sps = draw(st.integers(2, 16))
-    nslots = draw(st.sampled_from([2 ** order - 1, 64, 100, 127]))
+    big = draw(st.integers(1, 2 ** 30)) % 25 == 7            # a pattern of more than 2^17 samples (PRBS15 at 5 or 8 samples per slot)
+    order = 15 if big else draw(st.sampled_from([7, 9]))
+    sps = draw(st.sampled_from([5, 8])) if big else draw(st.integers(2, 16))
+    nslots = 2 ** 15 - 1 if big else draw(st.sampled_from([2 ** order - 1, 64, 100, 127]))
     nslots = min(nslots, 2 ** order - 1)
     l = nslots * sps
-    return {"order": order, "sps": sps, "nslots": nslots, "d": draw(st.one_of(st.integers(0, l - 1), st.sampled_from([0, 1, l - 1]))), "reps": draw(st.integers(2, 4)),
+    return {"order": order, "sps": sps, "nslots": nslots,
+            "d": draw(st.one_of(st.integers(0, l - 1), st.sampled_from([0, 1, l - 1, l - 2, l - sps // 2, l - sps, sps // 2, sps]))), "reps": 2 if big else draw(st.integers(2, 4)),
             "sigma": draw(st.sampled_from([0.0, 0.0, 0.02, 0.1])), "A": 10 ** draw(st.floats(-1, 1)), "seed": draw(st.integers(0, 2 ** 31 - 1)),
-            "form": draw(st.sampled_from(["es", "array"])), "txform": draw(st.sampled_from(["bs", "array"])), "extra": draw(st.integers(0, 40))}
+            "form": draw(st.sampled_from(["es", "array"])), "txform": draw(st.sampled_from(["bs", "array", "bool"])), "extra": draw(st.integers(0, 40)),
+            "codes": draw(st.sampled_from([None, None, "int16", "int8", "uint8", "int32"]))}      # raw integer codes of a scope / ADC instead of volts
 
 
 def e_sync(c):
@@ -481,8 +484,11 @@ def e_sync(c):
     stream = np.tile(wave, c["reps"] + 2)
     rx = c["A"] * stream[l - d: l - d + c["reps"] * l + c["extra"]].astype(float)
     rx = rx + c["sigma"] * c["A"] * rs.standard_normal(rx.size)
+    if c.get("codes"):
+        full = {"int16": 4000, "int8": 100, "uint8": 200, "int32": 60000}[c["codes"]]
+        rx = np.clip(np.rint(rx / c["A"] * full * 0.8 + (0 if c["codes"] == "uint8" else -full * 0.1)), np.iinfo(c["codes"]).min, np.iinfo(c["codes"]).max).astype(c["codes"])
     arg = electrical_signal(rx.copy()) if c["form"] == "es" else rx.copy()
-    tx = binary_sequence(slots) if c["txform"] == "bs" else slots.copy()
+    tx = binary_sequence(slots) if c["txform"] == "bs" else slots.astype(bool) if c["txform"] == "bool" else slots.copy()
     g = Guard()
     if c["form"] == "es":
         g.add_signal("rx", arg)
@@ -502,7 +508,8 @@ def e_sync(c):
     short = rx[: l - 1 - rs.randint(0, max(1, l // 2))]
     raises(BufferError, LAB.SYNC, short.copy(), slots.copy(), sps, tag="sync-short-record-accepted")
     raises(ValueError, LAB.SYNC, rx.copy(), slots.copy(), tag="sync-missing-sps-accepted")
-    return {"nontrivial": d >= 1 and c["sigma"] > 0, "classes": ["d0" if d == 0 else "d>=1", "noise" if c["sigma"] else "clean", c["form"], f"prbs{c['order']}"]}
+    return {"nontrivial": d >= 1 and c["sigma"] > 0, "classes": ["d0" if d == 0 else "d>=1", "noise" if c["sigma"] else "clean", c["form"], f"prbs{c['order']}", "codes-" + c["codes"] if c.get("codes") else "volts",
+                                                                   "last-half-slot" if d > l - sps / 2 - 1 else "-"]}
 
 
 PARTS = [
